@@ -1,0 +1,42 @@
+//go:build verif
+
+package config
+
+// Verification-only access to the lexer and the value quoting helpers of the formatter.
+
+type VerifToken struct {
+	Kind string
+	Text string
+}
+
+// VerifLex runs the real lexer over src and returns its token stream (without EOF) or its error.
+func VerifLex(src string) ([]VerifToken, error) {
+	l := newLexer(src)
+	var out []VerifToken
+	for {
+		t, err := l.nextToken()
+		if err != nil {
+			return out, err
+		}
+		switch t.kind {
+		case tokEOF:
+			return out, nil
+		case tokIdent:
+			out = append(out, VerifToken{"ident", t.text})
+		case tokString:
+			out = append(out, VerifToken{"str", t.text})
+		case tokLBrace:
+			out = append(out, VerifToken{"lbrace", t.text})
+		case tokRBrace:
+			out = append(out, VerifToken{"rbrace", t.text})
+		case tokComment:
+			out = append(out, VerifToken{"comment", t.text})
+		}
+	}
+}
+
+func VerifQuoteString(s string) string              { return quoteString(s) }
+func VerifFormatValue(v string, quoted bool) string { return formatValue(v, quoted) }
+func VerifFormatRoutePath(p string, q bool) string  { return formatRoutePath(p, q) }
+func VerifIsUnquotedValueSafe(v string) bool        { return isUnquotedValueSafe(v) }
+func VerifIsUnquotedPathSafe(p string) bool         { return isUnquotedPathSafe(p) }
